@@ -13,6 +13,8 @@ FILES = {"file:A": ("fA", ",.+."), "file:B": ("fB", "++[>+++<-]>."), "file:U": (
 TEXT = {"code:a": "+++.", "code:b": ",+.", "code:c": ">,[.,]", "code:u": "+[.", "code:d": "++.[>+<]", "missing": "nope",
         "code:w": "+" * 300 + ".",          # its optimised IR / bytecode depends on the cell width
         "junk": "abc",
+        "dir": "dD",                        # a directory: can be opened, cannot be read
+        "badutf": "fN",                     # a file whose content is not UTF-8: can be opened, cannot be read as text
         "num:0": "0", "num:3": "3", "num:100000": "100000"}
 OPTIONS = ["-i8", "-i16", "-i32", "-i64", "-O0", "-O1", "-O2", "-O3", "-O4", "-O5", "--inplace", "--ir-int",
            "--bc-int", "--base-jit", "--print-ir", "--print-bc", "--print-jit-bc", "--print-jit-mc", "--limit",
@@ -113,7 +115,7 @@ def c16(tier):
     rng.shuffle(longer)
     gen += longer[: (2500 if tier == "quick" else 40000)]
     # every vector up to length 4 (thorough: 5) over the file-handling tokens
-    tiny = ["-f", "missing", "file:A", "file:U", "code:b", "--print-ir"]
+    tiny = ["-f", "missing", "file:A", "file:U", "code:b", "--print-ir", "dir", "badutf"]
     tp3 = os.path.join(d, "tokens-tiny.ndjson")
     token_file(tiny, tp3)
     res = tlc.run_tlc("Cli", env={"GEN": 1, "MAXLEN": 4 if tier == "quick" else 5, "TOKENS": tp3, "CASES": "/dev/null"},
@@ -145,6 +147,8 @@ def c16(tier):
     scratch = tempfile.mkdtemp(prefix="cli-", dir=d)
     for name, (fn, text) in FILES.items():
         open(os.path.join(scratch, fn), "w").write(text)
+    os.mkdir(os.path.join(scratch, TEXT["dir"]))
+    open(os.path.join(scratch, TEXT["badutf"]), "wb").write(b"+\xe9.")
     cases, bftraces = [], []
     render_reqs = {}
     profiles = ["debug"] if tier == "quick" else ["debug", "release"]
